@@ -116,6 +116,18 @@ pub const ALL_FLAT: &[Family] = &[
     Family::Zip,
     Family::Chain,
 ];
+/// C02 / C03 also speak about the children of `wait_until` (inner future / stream and deadline)
+pub const ALL_FLAT_W: &[Family] = &[
+    Family::Join,
+    Family::TryJoin,
+    Family::Race,
+    Family::RaceOk,
+    Family::Merge,
+    Family::Zip,
+    Family::Chain,
+    Family::WaitUntilF,
+    Family::WaitUntilS,
+];
 pub const SELECTIVE: &[Family] = &[Family::Join, Family::TryJoin, Family::Merge, Family::Zip];
 pub const CONCURRENT: &[Family] =
     &[Family::Join, Family::TryJoin, Family::Race, Family::RaceOk, Family::Merge, Family::Zip];
@@ -136,8 +148,8 @@ pub fn profile(prop: &str) -> Profile {
     let base = Profile { big: base.big && !small(), ..base };
     match prop {
         "C01" => Profile { nested: true, groups: true, ..base },
-        "C02" => Profile { nested: true, groups: true, co: true, allow_cancel: true, ..base },
-        "C03" => Profile { nested: true, groups: true, co: true, allow_cancel: true, ..base },
+        "C02" => Profile { families: ALL_FLAT_W, nested: true, groups: true, co: true, allow_cancel: true, ..base },
+        "C03" => Profile { families: ALL_FLAT_W, nested: true, groups: true, co: true, allow_cancel: true, ..base },
         "C20" => Profile { families: CONCURRENT, nested: true, groups: true, ..base },
         "C16" => Profile { families: SELECTIVE, nested: true, groups: true, ..base },
         "C04" => Profile { families: &[Family::Join], nested: true, ..base },
